@@ -61,7 +61,8 @@ def build(spec):
         rng = _rng(spec["seed"])
         U = _unitary(rng, n)
         A = qalg.mmm(U, qalg.diag(spec["lam"], n, n), qalg.herm(U))
-        A = (A + qalg.herm(A)) * 0.5  # exactly Hermitian
+        if not spec.get("raw"):
+            A = (A + qalg.herm(A)) * 0.5  # exactly Hermitian ("raw": Hermitian up to rounding only)
     elif g == "herm_vec":
         # Hermitian with a prescribed "natural" real vector (all ones / alternating signs / ramp)
         # as eigenvector of the NON-dominant eigenvalue lam[k]; the other eigenvectors are random
@@ -193,6 +194,11 @@ def build(spec):
         A = qalg.from_comps(F)
     elif g == "mul":
         A = qalg.mm(build(spec["A"]), build(spec["x"]))
+    elif g == "set00":
+        # the leading entry replaced by a (tiny or zero) real value: keeps a Hermitian matrix
+        # Hermitian and makes elimination without pivoting unstable
+        A = np.array(build(spec["of"]), copy=True)
+        A[0, 0] = np.quaternion(float(spec["v"]), 0, 0, 0)
     elif g == "scale":
         A = build(spec["of"]) * float(spec["c"])
     elif g == "add":
@@ -262,7 +268,7 @@ def shape_of(spec):
     if g == "mul":
         a, x = shape_of(spec["A"]), shape_of(spec["x"])
         return (a[0], x[1]) if a and x else None
-    if g in ("scale", "hermpart"):
+    if g in ("scale", "hermpart", "set00"):
         return shape_of(spec["of"])
     if g == "T":
         s = shape_of(spec["of"])
